@@ -3,9 +3,11 @@ CHECKS = [
          text="Exhaustive decision (all strings) that the regex literals the IRI predicates are built from denote "
               "exactly the RFC 3987 IRI / irelative-ref / IRI-reference languages, that absolute/relative are "
               "disjoint, plus structural rules that every checked constructor goes through these predicates. "
-              "Decides the language clause of the property, not the resolution algorithm.",
+              "A panic audit of the resolution glue (resolve.rs, _wrapper.rs). "
+              "Decides the language clause of the property and the panic-freedom of the glue, not the resolution algorithm.",
          note="Trusted: rustc const-eval/MIR, regex-syntax+regex-automata, the RFC transcription in rules/grammars.py, "
-              "oxiri accepting every RFC 3987 reference (A9).",
+              "oxiri accepting every RFC 3987 reference (A9). Known findings (KNOWN_FINDINGS.txt): the typed resolve() unwraps a resolution "
+              "error that oxiri can report for accepted operands (two sites).",
          technique="static: DFA product-automaton language equivalence on constants read from type-checked MIR + "
                    "dominator/who-calls rules"),
 ]
@@ -25,9 +27,10 @@ CHECKS.append(
     dict(id="C16", level="other", engine="E1+E3",
          text="Every cycle of the resolved workspace call graph is an audited table entry whose class bounds depth by "
               "data nesting / log n / query size / a constant; unknown cycles, new recursive call sites in audited "
-              "cycles and loop-as-recursion patterns are violations. Decides the recursion-structure clause (a necessary "
+              "cycles, loop-as-recursion patterns and iterators re-wrapped in a loop are violations. Decides the recursion-structure clause (a necessary "
               "condition for size-independent stack use), not frame sizes.",
-         note="Trusted: rustc's callee resolution; the audit reasons in rules/tables/recursion.py. Calls through type "
+         note="Known finding: the pretty Turtle/TriG printer's recursion on chains of inlined blank nodes (size-driven). "
+              "Trusted: rustc's callee resolution; the audit reasons in rules/tables/recursion.py. Calls through type "
               "parameters are not linked to impls (monomorphic recursion through them is bounded by type nesting). "
               "Third-party crates not analysed.",
          technique="static: SCCs of the MIR call graph + audited table + argument-provenance patterns"))
@@ -73,8 +76,10 @@ CHECKS.append(
               "panic audit of everything reachable from the parser adapters (auto-discharge rules + exact-key audited table, "
               "fail closed); accessor/kind consistency of all 32 Term impls; who-may-construct ArcBnode. Decides the "
               "workspace's own adapter code, not termination or panics inside rio/json-ld.",
-         note="Trusted: the pinned back-ends emit tokens of their normative grammars (A8); rustc MIR; regex engines; the audited "
-              "table with one reason per entry.",
+         note="Trusted: the pinned back-ends emit tokens of their normative grammars (A8) except where refuted; rustc MIR; regex engines; "
+              "the audited table with one reason per entry. Known findings: three token classes for which A8 was refuted by a "
+              "reproduction (rio blank node labels, rio_xml namespace concatenation, iref IRIs): the unchecked construction panics in "
+              "debug builds.",
          technique="static: DFA language inclusion + MIR panic-site enumeration with dominator-based discharge + call-graph reachability"))
 CHECKS.append(
     dict(id="C15", level="other", engine="E1+E3",
